@@ -34,6 +34,7 @@ K_D2 = "c17:triangular-to_dict"
 K_Z2U1 = "c17:z2xu1-from_dict-no-config"
 K_H5EMPTY = "c17:hdf5-empty-tensor"
 K_LEGEMPTY = "c17:legacy-dict-empty-tensor"
+K_EMBLAZY = "c17:meta-embed-lazy-hardfused"
 
 SYMS = ["dense", "Z2", "Z3", "U1", "Z2xU1", "U1xU1xZ2", "U1xU1"]
 MODULI = {"dense": [], "Z2": [2], "Z3": [3], "U1": [0], "U1xU1": [0, 0], "Z2xU1": [2, 0], "U1xU1xZ2": [0, 0, 2]}
@@ -583,7 +584,7 @@ def gen_mps(rng, want_central=None):
 
 def mps_dense(psi):
     """follow-up on the MPS level: absorb the central block, contract to one tensor, include the factor"""
-    if type(psi).__name__ == "MpoPBC":
+    if type(psi).__name__ == "MpoPBC" or any(type(t).__name__ != "Tensor" for t in psi.A.values()):
         return None
     phi = psi.shallow_copy()
     phi.absorb_central_(to="last")
@@ -627,6 +628,16 @@ def mps_diffs(a, b, strict=True):
     except Exception as e:
         out.append(f"follow-up raised {_exc(e)}")
     return out
+
+
+def blockless_site(psi):
+    """some site tensor (after absorbing the central block, as the exporters do) has no blocks"""
+    phi = psi.shallow_copy()
+    try:
+        phi.absorb_central_(to="last")
+    except Exception:
+        pass
+    return any(len(t.struct.t) == 0 for t in phi.A.values() if type(t).__name__ == "Tensor")
 
 
 def mps_roundtrips(ctx, psi, case, tmp):
@@ -679,7 +690,11 @@ def mps_roundtrips(ctx, psi, case, tmp):
         if diffs:
             ctx.fail("oracle", "c17:mps-roundtrip:legacy", f"save_to_dict/load_from_dict: restored MPS differs in {diffs[:3]}", case=case, concrete=True)
     except Exception as e:
-        ctx.fail("oracle", "c17:mps-roundtrip:legacy", f"save_to_dict/load_from_dict raised {_exc(e)}", case=case, concrete=True)
+        if type(e).__name__ == "AxisError" and blockless_site(psi):
+            ctx.count("known:legacy-empty")
+            ctx.fail("oracle", K_LEGEMPTY, f"legacy dictionary of an MPS with a block-less site tensor raised {_exc(e)}", case=case, concrete=True)
+        else:
+            ctx.fail("oracle", "c17:mps-roundtrip:legacy", f"save_to_dict/load_from_dict raised {_exc(e)}", case=case, concrete=True)
     p = tmp.path("h5")
     try:
         with h5py.File(p, "w") as f:
@@ -691,7 +706,11 @@ def mps_roundtrips(ctx, psi, case, tmp):
         if diffs:
             ctx.fail("oracle", "c17:mps-roundtrip:hdf5", f"save_to_hdf5/load_from_hdf5: restored MPS differs in {diffs[:3]}", case=case, concrete=True)
     except Exception as e:
-        ctx.fail("oracle", "c17:mps-roundtrip:hdf5", f"save_to_hdf5/load_from_hdf5 raised {_exc(e)}", case=case, concrete=True)
+        if type(e).__name__ == "AxisError" and blockless_site(psi):
+            ctx.count("known:hdf5-empty")
+            ctx.fail("oracle", K_H5EMPTY, f"load_from_hdf5 of an MPS with a block-less site tensor raised {_exc(e)}", case=case, concrete=True)
+        else:
+            ctx.fail("oracle", "c17:mps-roundtrip:hdf5", f"save_to_hdf5/load_from_hdf5 raised {_exc(e)}", case=case, concrete=True)
     finally:
         if os.path.exists(p):
             os.remove(p)
@@ -757,7 +776,7 @@ def gen_geometry(rng, kind=None):
     return fpeps.TriangularLattice(**opts), {"geometry": kind, "opts": repr(opts)}
 
 
-def gen_peps(rng, geometry=None, sid=None, physical=None):
+def gen_peps(rng, geometry=None, sid=None, physical=None, neutral=False):
     yastn = Y()
     import yastn.tn.fpeps as fpeps
     if geometry is None:
@@ -787,7 +806,7 @@ def gen_peps(rng, geometry=None, sid=None, physical=None):
         legs = [lv.conj(), lv, lv, lv.conj()]
         if mode == "bonds":
             legs.append(rand_leg(rng, cfg, sid, s=1, maxsec=2, maxD=2))
-        n = pick_charge(rng, cfg, legs)
+        n = pick_charge(rng, cfg, legs) if not neutral else None
         t, _, _ = base_tensor(rng, cfg, sid, legs, n, cplx, keep=rng.choice((1.0, 0.7)))
         if rng.random() < 0.3 and mode == "bonds":
             t = t.fuse_legs(axes=((0, 1), (2, 3), 4)).unfuse_legs(axes=(0, 1)) if rng.random() < 0.5 else t.transpose((4, 3, 2, 1, 0)).consume_transpose().transpose((4, 3, 2, 1, 0))
@@ -987,7 +1006,7 @@ def gen_dpt(rng):
                  "transpose": list(trans), "bra_is_ket": same}
 
 
-def gen_env(rng, kind=None):
+def gen_env(rng, kind=None, variant=0):
     yastn = Y()
     import yastn.tn.fpeps as fpeps
     kind = kind or rng.choice(("EnvCTM", "EnvCTM", "EnvBP", "EnvBoundaryMPS"))
@@ -1009,7 +1028,7 @@ def gen_env(rng, kind=None):
     gk = rng.choice(("square-obc", "square-infinite", "checkerboard", "rectangular", "triangular-default")) if kind == "EnvCTM" else \
         rng.choice(("square-obc", "square-infinite", "checkerboard"))
     geo = gen_geometry(rng, gk)
-    psi, rec = gen_peps(rng, geometry=geo, sid=rng.choice(("dense", "Z2", "U1")), physical=True)
+    psi, rec = gen_peps(rng, geometry=geo, sid=rng.choice(("dense", "Z2", "U1")), physical=True, neutral=True)
     psi.config.backend.random_seed(rng.randrange(1 << 30))
     if kind == "EnvCTM":
         bra = None
@@ -1022,7 +1041,7 @@ def gen_env(rng, kind=None):
                     setattr(env.proj[site], nm, env[site].tl)
         rec["bra"] = bra is not None
     else:
-        env = fpeps.EnvBP(psi, init="eye", which=rng.choice(("BP", "NN+BP", "NNN+BP")))
+        env = fpeps.EnvBP(psi, init="eye", which=("NN+BP", "NNN+BP", "BP")[variant % 3])
     return env, dict(rec, env=kind)
 
 
@@ -1048,6 +1067,12 @@ def reference_vec(x, ref):
                 return None
             out[slice(*sl.slcs[0])] = np.asarray(x.data)[lo:hi]
     return out
+
+
+def sumsq(v):
+    """exact for integer-valued (complex) data"""
+    v = np.asarray(v)
+    return float(np.sum(v.real ** 2) + np.sum(v.imag ** 2))
 
 
 def gen_embed_case(rng):
@@ -1112,6 +1137,9 @@ def gen_embed_case(rng):
 def embed_checks(ctx, ref, x, y, case):
     yastn = Y()
     key = "c17:meta-embed"
+    # domain of the known defect of Tensor.__add__: equally lazily transposed hard-fused operands whose fused legs differ in sectors
+    lazy_hard_mask = ref.trans != tuple(range(ref.ndim_n)) and any(len(hf.tree) > 1 for hf in ref.hfs) and \
+        not (x.hfs == ref.hfs and y.hfs == ref.hfs)
     try:
         _, meta = yastn.split_data_and_meta(ref.to_dict(level=0), squeeze=True)
         vx, mx = vec_of(x, meta)
@@ -1120,7 +1148,13 @@ def embed_checks(ctx, ref, x, y, case):
         vl, _ = vec_of(2 * x - 3 * y, meta)
     except Exception as e:
         # hard-fused x whose fused legs miss whole sectors of ref's legs is handled by `a + ap`; any exception here is a failure
-        ctx.fail("oracle", key, f"to_dict(meta=meta of a compatible tensor) raised {_exc(e)}", case=case, concrete=True)
+        if lazy_hard_mask:
+            # `a + ap` of two equally lazily transposed hard-fused tensors whose fused legs differ in sectors (mask needed)
+            ctx.count("known:meta-embed-lazy-hardfused")
+            ctx.fail("oracle", K_EMBLAZY, f"to_dict(meta=...) of a lazily transposed hard-fused tensor compatible with meta raised {_exc(e)}",
+                     case=case, concrete=True)
+        else:
+            ctx.fail("oracle", key, f"to_dict(meta=meta of a compatible tensor) raised {_exc(e)}", case=case, concrete=True)
         return None
     bad = []
     if vx.shape != (ref.size,) or vy.shape != (ref.size,):
@@ -1128,7 +1162,7 @@ def embed_checks(ctx, ref, x, y, case):
     else:
         if not np.array_equal(vs, vx + vy) or not np.array_equal(vl, 2 * vx - 3 * vy):
             bad.append("linearity")
-        if float(np.sum(np.abs(vx) ** 2)) != float(np.sum(np.abs(np.asarray(x.data)) ** 2)):
+        if sumsq(vx) != sumsq(np.asarray(x.data)):
             bad.append("norm: sum |v|^2 != sum |x|^2")
         if abs(np.linalg.norm(vx) - float(x.norm())) > 1e-9 * (1 + float(x.norm())):
             bad.append("norm vs Tensor.norm()")
@@ -1142,14 +1176,17 @@ def embed_checks(ctx, ref, x, y, case):
             if back.struct != ref.struct or back.get_legs() != ref.get_legs():
                 bad.append("unembedded tensor does not have the structure of meta")
             lg = ref.get_legs()
-            if back.ndim > 0 and not np.array_equal(back.to_numpy(legs=dict(enumerate(lg))), x.to_numpy(legs=dict(enumerate(lg)))):
+            if back.ndim > 0 and len(ref.struct.t) > 0 and not np.array_equal(back.to_numpy(legs=dict(enumerate(lg))), x.to_numpy(legs=dict(enumerate(lg)))):
                 bad.append("unembed(embed(x)) != x with zero fill")
             nz = int(np.count_nonzero(vx))
             if nz != int(np.count_nonzero(np.asarray(x.data))):
                 bad.append("zero fill: number of non-zero entries changed")
         except Exception as e:
             bad.append(f"unembed raised {_exc(e)}")
-    if bad:
+    if bad and lazy_hard_mask:
+        ctx.count("known:meta-embed-lazy-hardfused")
+        ctx.fail("oracle", K_EMBLAZY, f"to_dict(meta=...) of lazily transposed hard-fused tensors with differing fused sectors: {bad}", case=case, concrete=True)
+    elif bad:
         ctx.fail("oracle", key, f"to_dict(meta=...) embedding: {bad}", case=case, concrete=True)
     return meta
 
@@ -1221,3 +1258,554 @@ def rejection_checks(ctx, rng, ref, x, meta, case):
                         if x.get_legs() != x.transpose(tuple(range(x.ndim))[::-1]).get_legs() else (_ for _ in ()).throw(yastn.YastnError("symmetric")))
     del nat_legs
     return n_rej
+
+
+# ------------------------------------------------------------------------------------------------
+# correspondence with the Lean model (YModel/Serial.lean)
+# ------------------------------------------------------------------------------------------------
+
+class Skel:
+    """JSON skeleton (Val of the model) of a python dictionary; arrays are replaced by ids (object identity)"""
+
+    def __init__(self):
+        self.ids = {}
+        self.keep = []
+        self.unsupported = 0
+
+    def arr_id(self, x):
+        k = id(x)
+        if k not in self.ids:
+            self.ids[k] = len(self.ids)
+            self.keep.append(x)   # keep alive so that ids stay unique
+        return self.ids[k]
+
+    def key(self, k):
+        if isinstance(k, bool):
+            raise KeyError("bool key")
+        if isinstance(k, (int, np.integer)):
+            return {"i": int(k)}
+        if isinstance(k, str):
+            return {"s": k}
+        if isinstance(k, tuple) and all(isinstance(a, (int, np.integer, str)) and not isinstance(a, bool) for a in k):
+            return {"t": [{"i": int(a)} if not isinstance(a, str) else {"s": a} for a in k]}
+        raise KeyError(f"unsupported key {k!r}")
+
+    def val(self, x):
+        if x is None:
+            return None
+        if isinstance(x, (bool, np.bool_)):
+            return {"b": bool(x)}
+        if isinstance(x, (int, np.integer)):
+            return {"i": int(x)}
+        if isinstance(x, str):
+            return {"s": x}
+        if isinstance(x, np.ndarray):
+            return {"a": [self.arr_id(x)]}
+        if isinstance(x, dict):
+            return {"d": [[self.key(k), self.val(v)] for k, v in x.items()]}
+        if isinstance(x, (tuple, list)):
+            return {"t": [self.val(v) for v in x]}
+        return {"s": f"<{type(x).__name__}:{x!r}>"[:80]}
+
+
+def norm_val(v):
+    """order-insensitive normal form of a Val JSON (python dictionaries compare without order)"""
+    import json
+    if isinstance(v, dict):
+        if "d" in v:
+            items = [[json.dumps(k, sort_keys=True), norm_val(x)] for k, x in v["d"]]
+            return {"d": sorted(items, key=lambda p: p[0])}
+        if "t" in v:
+            return {"t": [norm_val(x) for x in v["t"]]}
+    return v
+
+
+def reorder(d, rng):
+    """same dictionary with another insertion order at every level"""
+    if not isinstance(d, dict):
+        return d
+    ks = list(d.keys())
+    rng.shuffle(ks)
+    return {k: (d[k] if k == "data" else reorder(d[k], rng)) for k in ks}
+
+
+def synth_dict(rng, depth=0, malformed=False):
+    kinds = ["int", "str", "tup2", "tupis"]
+    kind = rng.choice(kinds)
+    n = rng.randint(0, 4) if depth else rng.randint(1, 5)
+
+    def mk(kind):
+        if kind == "int":
+            return rng.randint(-3, 6)
+        if kind == "str":
+            return rng.choice(("data", "data", "A", "type", "b", "struct", "Data", "dat", "z", "", "a b"))
+        if kind == "tup2":
+            return (rng.randint(-1, 3), rng.randint(0, 3))
+        return (rng.randint(0, 2), rng.choice(("l", "r", "t", "b")))
+    keys = []
+    for _ in range(n):
+        keys.append(mk(kind))
+    if malformed and rng.random() < 0.7 and n >= 1:
+        keys.append(mk(rng.choice([k for k in kinds if k != kind])))
+    d = {}
+    for k in keys:
+        r = rng.random()
+        if r < 0.3 and depth < 3:
+            v = synth_dict(rng, depth + 1, malformed and rng.random() < 0.5)
+        elif r < 0.5:
+            v = np.arange(rng.randint(0, 3), dtype=np.float64)
+        elif r < 0.6:
+            v = (1, "x", {"data": 3, 2: 1}, None)   # dictionaries inside tuples are not walked
+        elif r < 0.7:
+            v = [rng.randint(0, 5), True]
+        else:
+            v = rng.choice((0, 1, -7, "s", None, True, False, 2.5))
+        d[k] = v
+    return d
+
+
+def split_correspondence(ctx, dicts, tag):
+    """real split/combine vs the model on the JSON skeleton of `dicts`"""
+    yastn = Y()
+    reqs, info = [], []
+    for d in dicts:
+        sk = Skel()
+        try:
+            v = sk.val(d)
+        except KeyError:
+            ctx.count(f"corr-split:{tag}:unsupported-key")
+            continue
+        try:
+            data, meta = yastn.split_data_and_meta(d)
+            comb = yastn.combine_data_and_meta(data, meta)
+            real = {"data": [sk.val(x) for x in data], "meta": norm_val(sk.val(meta)), "combined": norm_val(sk.val(comb))}
+        except TypeError as e:
+            real = {"err": "TypeError"}
+        except Exception as e:
+            real = {"err": type(e).__name__}
+        reqs.append(v)
+        info.append((real, norm_val(v)))
+    if not reqs or ctx.drv is None:
+        return
+    res = []
+    for i in range(0, len(reqs), 25):
+        r = ctx.drv.call({"op": "split_batch", "cases": reqs[i:i + 25]})
+        if not r.get("ok"):
+            ctx.fail("correspondence", "c17:model-error", f"split_batch: {r}")
+            return
+        res += r["res"]
+    for (real, vnorm), m, v in zip(info, res, reqs):
+        ctx.count(f"corr-split:{tag}:{'err' if 'err' in real else 'ok'}")
+        ctx.count("compared")
+        if ("err" in real) != ("err" in m):
+            if "err" in m and m["err"] == "TypeError" and "err" not in real:
+                # the model rejects keys that python's sorted() would have to compare; the real code being more permissive
+                # (e.g. after a fix of D6) is checked by the round-trip oracles, not here
+                ctx.count(f"corr-split:{tag}:real-more-permissive")
+                continue
+            ctx.fail("correspondence", f"c17:corr-split:{tag}", f"acceptance differs: real={real.get('err', 'ok')} model={m.get('err', 'ok')}", case={"val": v})
+            continue
+        if "err" in real:
+            if real["err"] != m["err"]:
+                ctx.fail("correspondence", f"c17:corr-split:{tag}", f"error kind differs: real={real['err']} model={m['err']}", case={"val": v})
+            continue
+        if real["data"] != m["data"]:
+            ctx.fail("correspondence", f"c17:corr-split:{tag}", "order/content of the data tuple differs between real split and model", case={"val": v})
+        elif real["meta"] != norm_val(m["meta"]):
+            ctx.fail("correspondence", f"c17:corr-split:{tag}", "meta differs between real split and model", case={"val": v})
+        elif real["combined"] != norm_val(m["combined"]) or real["combined"] != vnorm:
+            ctx.fail("correspondence", f"c17:corr-split:{tag}", "combine(split(d)) differs (real vs model vs d)", case={"val": v})
+
+
+def split_order_oracle(ctx, d, rng, case):
+    """real code: the data order and meta do not depend on the insertion order of the dictionary"""
+    yastn = Y()
+    try:
+        d2 = reorder(d, rng)
+        data1, meta1 = yastn.split_data_and_meta(d)
+        data2, meta2 = yastn.split_data_and_meta(d2)
+    except TypeError:
+        return
+    sk = Skel()
+    if [sk.val(x) for x in data1] != [sk.val(x) for x in data2] or norm_val(sk.val(meta1)) != norm_val(sk.val(meta2)):
+        ctx.fail("oracle", "c17:split-order", "split_data_and_meta depends on the insertion order of the dictionary (data order / meta differ)",
+                 case=case, concrete=True)
+
+
+def embed_correspondence(ctx, cases):
+    """cases: (ref, x) tensors without fusion / diag; real vector vs model embed"""
+    yastn = Y()
+    if ctx.drv is None or not cases:
+        return
+    reqs, reals = [], []
+    for ref, x, expect_reject in cases:
+        lay = [[list(t), int(sl.Dp)] for t, sl in zip(ref.struct.t, ref.slices)]
+        blocks = [[list(t), [int(v) for v in np.asarray(x.data)[slice(*sl.slcs[0])].real]] for t, sl in zip(x.struct.t, x.slices)]
+        try:
+            _, meta = yastn.split_data_and_meta(ref.to_dict(level=0), squeeze=True)
+            v, _ = vec_of(x, meta)
+            real = {"vec": [int(z) for z in np.asarray(v).real]}
+        except yastn.YastnError:
+            real = {"err": "rejected"}
+        reqs.append({"meta": lay, "x": blocks})
+        reals.append(real)
+    r = ctx.drv.call({"op": "embed_batch", "cases": reqs})
+    if not r.get("ok"):
+        ctx.fail("correspondence", "c17:model-error", f"embed_batch: {r}")
+        return
+    for real, m, q in zip(reals, r["res"], reqs):
+        ctx.count(f"corr-embed:{'err' if 'err' in real else 'ok'}")
+        ctx.count("compared")
+        if ("err" in real) != ("err" in m):
+            ctx.fail("correspondence", "c17:corr-embed", f"acceptance differs real={real} model={m}", case=q)
+        elif "err" not in real and real["vec"] != m["vec"]:
+            ctx.fail("correspondence", "c17:corr-embed", f"vector differs real={real['vec'][:12]} model={m['vec'][:12]}", case=q)
+        elif "err" not in real and m["normsq"] != m["normsq_x"]:
+            ctx.fail("correspondence", "c17:corr-embed", "model norm mismatch", case=q)
+
+
+def rec_of(a):
+    def ints(x):
+        return [int(v) for v in x]
+    hfs = []
+    for hf in a.hfs:
+        t = [ints(_flat(x)) for x in hf.t]
+        D = [ints(_flat(x)) for x in hf.D]
+        hfs.append({"tree": ints(hf.tree), "op": hf.op, "s": ints(hf.s), "t": t, "D": D})
+    fer = a.config.fermionic
+    return {"cfg": {"backend": a.config.backend.BACKEND_ID, "sym": a.config.sym.SYM_ID, "fermionic": bool(fer) if not isinstance(fer, tuple) else any(fer)},
+            "s": ints(a.struct.s), "n": ints(a.struct.n), "diag": bool(a.struct.diag), "t": [ints(t) for t in a.struct.t],
+            "D": [ints(D) for D in a.struct.D], "size": int(a.struct.size),
+            "slices": [ints(_flat(sl)) for sl in a.slices], "trans": ints(a.trans), "mfs": [ints(m) for m in a.mfs], "hfs": hfs,
+            "data": [0] * 0}
+
+
+def _flat(x):
+    out = []
+    for v in x:
+        if isinstance(v, (tuple, list)):
+            out += _flat(v)
+        else:
+            out.append(v)
+    return out
+
+
+def shape_of(v):
+    """nesting shape of a Val JSON: dictionaries with their (string) keys, tuples only by kind"""
+    if isinstance(v, dict) and "d" in v:
+        return {"d": {k["s"] if "s" in k else repr(k): shape_of(x) for k, x in v["d"]}}
+    if isinstance(v, dict) and "t" in v:
+        return "tuple"
+    if isinstance(v, dict) and "a" in v:
+        return "array"
+    if isinstance(v, dict) and "i" in v:
+        return "int"
+    if isinstance(v, dict) and "s" in v:
+        return "str"
+    if isinstance(v, dict) and "b" in v:
+        return "bool"
+    return "none"
+
+
+CFG_KEYS = ("backend", "sym", "fermionic")
+
+
+def todict_correspondence(ctx, tensors):
+    """field-level structure of Tensor.to_dict(level) vs the model's toDict, and model-side fromDict∘toDict"""
+    if ctx.drv is None or not tensors:
+        return
+    reqs, reals = [], []
+    for a in tensors:
+        for lvl in (0, 1, 2):
+            for ver in (2, 1):
+                d = a.to_dict(level=lvl)
+                if ver == 1:
+                    d.pop("trans")
+                    d["dict_ver"] = 1
+                if lvl >= 1:   # the model keeps only the three configuration fields that from_dict looks at
+                    d["config"] = {k: d["config"][k] for k in CFG_KEYS}
+                    d["config"]["fermionic"] = bool(d["config"]["fermionic"]) if not isinstance(d["config"]["fermionic"], tuple) else any(d["config"]["fermionic"])
+                sk = Skel()
+                real = shape_of(sk.val(d))
+                if lvl == 0:
+                    real["d"]["data"] = "array"
+                reals.append((real, d, lvl, ver))
+                reqs.append({"rec": rec_of(a), "lvl": lvl, "ver": ver, "cfg": None})
+    res = []
+    for i in range(0, len(reqs), 30):
+        r = ctx.drv.call({"op": "todict_batch", "cases": reqs[i:i + 30]})
+        if not r.get("ok"):
+            ctx.fail("correspondence", "c17:model-error", f"todict_batch: {r}")
+            return
+        res += r["res"]
+    for (real, d, lvl, ver), m, q in zip(reals, res, reqs):
+        ctx.count("compared")
+        ctx.count(f"corr-todict:lvl{lvl}:ver{ver}")
+        ms = shape_of(m["dict"])
+        if ms != real:
+            ctx.fail("correspondence", "c17:corr-todict", f"structure of to_dict(level={lvl}) differs: real={real} model={ms}", case=q)
+            continue
+        md = {k["s"]: v for k, v in m["dict"]["d"]}
+        want_ver, want_lvl = d["dict_ver"], d["level"]
+        if md["dict_ver"] != {"i": want_ver} or md["level"] != {"i": want_lvl} or md["type"] != {"s": d["type"]} or md["isdiag"] != {"b": bool(d["isdiag"])}:
+            ctx.fail("correspondence", "c17:corr-todict", "header fields differ", case=q)
+        if ver == 2 and md["trans"] != Skel().val(tuple(d["trans"])):
+            ctx.fail("correspondence", "c17:corr-todict", "trans differs", case=q)
+        if md["mfs"] != Skel().val(d["mfs"]):
+            ctx.fail("correspondence", "c17:corr-todict", "mfs differs", case=q)
+        if "err" in m or (ver == 2 and not m.get("back_same")) or (ver == 1 and m.get("back_trans") != list(range(len(q["rec"]["s"])))):
+            ctx.fail("correspondence", "c17:corr-todict", f"model fromDict(toDict) is not the identity: {m.get('err')}", case=q)
+
+
+# ------------------------------------------------------------------------------------------------
+# the check
+# ------------------------------------------------------------------------------------------------
+
+class Budget:
+    def __init__(self, ctx, total):
+        self.ctx, self.total = ctx, total
+        self.t0 = time.time()
+
+    def over(self, frac):
+        return time.time() - self.t0 > self.total * frac
+
+
+def fixed_corpus(ctx, tmp, base):
+    """deterministic cases: every object class once, and the inputs of the findings known on the pinned tree"""
+    yastn = Y()
+    import random
+    import yastn.tn.mps as mps
+    import yastn.tn.fpeps as fpeps
+    rng = random.Random("C17-fixed")
+    # --- D6: MPS with central block
+    psi, rec = gen_mps(rng, want_central=True)
+    while "pC" not in rec:
+        psi, rec = gen_mps(rng, want_central=True)
+    mps_roundtrips(ctx, psi, dict(base, stream="fixed-mps-central", recipe=rec), tmp)
+    # --- D2: non-default triangular lattice (and the default one, which has to pass)
+    for kind in ("triangular-other", "triangular-default"):
+        psi, rec = gen_peps(rng, geometry=gen_geometry(rng, kind), sid="U1")
+        generic_roundtrips(ctx, psi, peps_any_diffs, "peps", dict(base, stream="fixed-" + kind, recipe=rec), tmp, known=known_triangular(psi.geometry))
+    # --- Z2xU1 tensor, block-less tensor
+    a, rec = gen_tensor(rng, sid="Z2xU1", want="hard")
+    tensor_roundtrips(ctx, a, dict(base, stream="fixed-z2xu1", recipe=rec), tmp)
+    tensor_legacy_and_hdf5(ctx, a, dict(base, stream="fixed-z2xu1", recipe=rec), tmp)
+    e = yastn.Tensor(make_cfg("U1"), s=(1, -1, 1))
+    tensor_roundtrips(ctx, e, dict(base, stream="fixed-empty"), tmp)
+    tensor_legacy_and_hdf5(ctx, e, dict(base, stream="fixed-empty"), tmp)
+    # --- to_dict(meta) of a lazily transposed hard-fused tensor lacking sectors of meta
+    cfg = make_cfg("Z2")
+    l2 = yastn.Leg(cfg, s=1, t=((0,), (1,)), D=(1, 2))
+    l1 = yastn.Leg(cfg, s=1, t=((0,),), D=(1,))
+    ref = fill(yastn.ones(cfg, legs=[l2, l2, l1, l2]), rng, False)
+    x = yastn.Tensor(cfg, s=(1, 1, 1, 1))
+    x.set_block(ts=(0, 0, 0, 0), Ds=(1, 1, 1, 1), val=[5.])
+    y = yastn.Tensor(cfg, s=(1, 1, 1, 1))
+    y.set_block(ts=(1, 1, 0, 0), Ds=(2, 2, 1, 1), val=[1., 2., 3., 4.])
+    for lazy in (False, True):
+        f = [z.fuse_legs(axes=((0, 1), (2, 3)), mode="hard") for z in (ref, x, y)]
+        if lazy:
+            f = [z.transpose((1, 0)) for z in f]
+        embed_checks(ctx, f[0], f[1], f[2], dict(base, stream="fixed-embed-hard", lazy=lazy))
+    # --- MPO made of DoublePepsTensors (transfer matrix of a PEPS)
+    psi, rec = gen_peps(rng, geometry=gen_geometry(rng, "square-obc"), sid="Z2", physical=True)
+    try:
+        tm = psi.transfer_mpo(n=0, dirn="v")
+    except Exception as ex:  # not part of the property
+        ctx.notes.append(f"transfer_mpo not available for the fixed case: {_exc(ex)}")
+        tm = None
+    if tm is not None:
+        generic_roundtrips(ctx, tm, lambda p, q: mps_diffs(p, q, strict=True), "mpo-dpt", dict(base, stream="fixed-transfer-mpo", recipe=rec), tmp)
+
+
+def run(ctx):
+    tmp = Tmp()
+    try:
+        with warnings.catch_warnings():
+            warnings.simplefilter("ignore", DeprecationWarning)
+            _run(ctx, tmp)
+    finally:
+        tmp.close()
+
+
+def _run(ctx, tmp):
+    yastn = Y()
+    import yastn.tn.fpeps as fpeps
+    rng = ctx.rng
+    quick = ctx.quick
+    base = {"seed": ctx.seed, "tier": ctx.tier}
+    ctx.extra["yastn_path"] = os.path.dirname(yastn.__file__)
+    ctx.rule = ("objects from a structured generator (tensors in dense/Z2/Z3/U1/U1xU1/Z2xU1/U1xU1xZ2, bosonic and fermionic, that are "
+                "diagonal / hard-fused (nested) / meta-fused / lazily transposed / block-less / complex / with missing blocks / charged; "
+                "MPS, MPO, MpoPBC with and without central block and non-unit factor; PEPS on all lattice classes; Peps2Layers; "
+                "DoublePepsTensor; EnvCTM/EnvBP/EnvBoundaryMPS) x levels 0,1,2 x {identity, split+combine, numpy save/load, HDF5, legacy "
+                "dictionaries}; integer-valued data so that all comparisons are exact; a case is non-trivial if the object has at "
+                "least one block; distinct by generation recipe")
+    ctx.assumptions += ["numpy.save/load (pickle) and h5py are exercised, not modelled",
+                        "dtype handling and the torch backend are outside the Lean model (dtype is checked on the real code)"]
+    B = Budget(ctx, 45 if quick else 600)
+    n_t, n_m, n_p, n_d, n_e, n_v, n_s = (180, 48, 35, 24, 12, 160, 200) if quick else (1500, 400, 300, 200, 60, 1500, 1500)
+
+    fixed_corpus(ctx, tmp, base)
+
+    # ---- tensors ----------------------------------------------------------------------------------
+    wants = [None, None, "diag", "empty", "missing", "hard", "meta", "nested", "lazy", "complex", None, "lazy"]
+    tensors_for_model, dicts_for_model = [], []
+    for i in range(n_t):
+        if B.over(0.35):
+            ctx.notes.append(f"tensor stream cut at {i}/{n_t} (time)")
+            break
+        sid = SYMS[i % len(SYMS)] if i < 4 * len(SYMS) else None
+        a, rec = gen_tensor(rng, sid=sid, want=wants[i % len(wants)])
+        case = dict(base, stream="tensor", i=i, recipe=rec)
+        fs = features(a)
+        for f in fs or ["plain"]:
+            ctx.count("tensor:" + f)
+        ctx.count("tensor-sym:" + rec["sym"])
+        ctx.case({"stream": "tensor", "recipe": rec}, nontrivial=a.size > 0)
+        n = tensor_roundtrips(ctx, a, case, tmp)
+        n += tensor_legacy_and_hdf5(ctx, a, case, tmp)
+        ctx.count("comparisons", n)
+        if i % 6 == 0 and rec["sym"] != "Z2xU1" or i < 8:
+            tensors_for_model.append(a)
+        if i % 10 == 0:
+            dicts_for_model.append(a.to_dict(level=1 + i % 2))
+
+    # ---- MPS / MPO --------------------------------------------------------------------------------
+    for i in range(n_m):
+        if B.over(0.5):
+            ctx.notes.append(f"mps stream cut at {i}/{n_m} (time)")
+            break
+        psi, rec = gen_mps(rng)
+        case = dict(base, stream="mps", i=i, recipe=rec)
+        ctx.count("mps:" + rec["kind"] + (":central" if "pC" in rec else "") + (":factor" if rec["factor"] not in ("1", "1.0") else ""))
+        ctx.case({"stream": "mps", "recipe": rec})
+        ctx.count("comparisons", mps_roundtrips(ctx, psi, case, tmp))
+        if i % 4 == 0:
+            d = psi.to_dict(level=2)
+            dicts_for_model.append(d)
+            split_order_oracle(ctx, d, rng, case)
+
+    # ---- PEPS -------------------------------------------------------------------------------------
+    gkinds = ["square-obc", "square-infinite", "square-cylinder", "checkerboard", "rectangular", "triangular-default", "triangular-other"]
+    for i in range(n_p):
+        if B.over(0.65):
+            ctx.notes.append(f"peps stream cut at {i}/{n_p} (time)")
+            break
+        psi, rec = gen_peps(rng, geometry=gen_geometry(rng, gkinds[i % len(gkinds)]))
+        case = dict(base, stream="peps", i=i, recipe=rec)
+        ctx.count("peps:" + rec["geometry"])
+        ctx.case({"stream": "peps", "recipe": rec})
+        kn = known_triangular(psi.geometry)
+        ctx.count("comparisons", generic_roundtrips(ctx, psi, peps_any_diffs, "peps", case, tmp, known=kn))
+        if i % 3 == 0 and rec["mode"] != "nophys":
+            bra = psi.copy()
+            for k, t in bra._site_data.items():   # a bra that differs from the ket
+                bra._site_data[k] = fill(t, rng)
+            p2 = fpeps.Peps2Layers(psi, bra)
+            ctx.count("peps2layers")
+            ctx.count("comparisons", generic_roundtrips(ctx, p2, peps_any_diffs, "peps2layers", case, tmp, known=kn))
+        if i % 5 == 0:
+            d = psi.to_dict(level=1)
+            dicts_for_model.append(d)
+            split_order_oracle(ctx, d, rng, case)
+        if i % 7 == 0:   # legacy dictionary of a PEPS
+            try:
+                with warnings.catch_warnings():
+                    warnings.simplefilter("ignore")
+                    d = psi.save_to_dict()
+                phi = fpeps.load_from_dict(psi.config, via_npsave(d, tmp))
+                diffs = [f"site {s}: {x}" for s in psi.sites() for x in (light_diffs(psi[s], phi[s]))]
+                g = geometry_diffs(psi.geometry, phi.geometry)
+                if g and kn(0, "legacy", None, g) == K_D2:
+                    ctx.fail("oracle", K_D2, f"legacy dictionary: {g[:2]}", case=case, concrete=True)
+                elif g or diffs:
+                    ctx.fail("oracle", "c17:peps-roundtrip:legacy", f"save_to_dict/load_from_dict: {(g + diffs)[:3]}", case=case, concrete=True)
+            except Exception as e:
+                if type(e).__name__ == "AxisError" and any(len(psi[st].struct.t) == 0 for st in psi.sites()):
+                    ctx.count("known:legacy-empty")
+                    ctx.fail("oracle", K_LEGEMPTY, f"legacy dictionary of a PEPS with a block-less site tensor raised {_exc(e)}", case=case, concrete=True)
+                elif type(psi.geometry).__name__ == "TriangularLattice" and kn(0, "legacy", e, None) == K_D2:
+                    ctx.fail("oracle", K_D2, f"legacy dictionary raised {_exc(e)}", case=case, concrete=True)
+                else:
+                    ctx.fail("oracle", "c17:peps-roundtrip:legacy", f"save_to_dict/load_from_dict raised {_exc(e)}", case=case, concrete=True)
+
+    # ---- DoublePepsTensor ---------------------------------------------------------------------------
+    for i in range(n_d):
+        if B.over(0.72):
+            break
+        dpt, rec = gen_dpt(rng)
+        case = dict(base, stream="dpt", i=i, recipe=rec)
+        ctx.count("dpt" + (":op" if rec["op"] else "") + (":swaps" if rec["swaps"] else ""))
+        ctx.case({"stream": "dpt", "recipe": rec})
+        ctx.count("comparisons", generic_roundtrips(ctx, dpt, dpt_diffs, "dpt", case, tmp))
+        if i % 4 == 0:
+            dicts_for_model.append(dpt.to_dict(level=2))
+
+    # ---- environments -------------------------------------------------------------------------------
+    ekinds = ["EnvCTM", "EnvBP", "EnvBoundaryMPS", "EnvCTM"]
+    for i in range(n_e):
+        if B.over(0.82):
+            ctx.notes.append(f"env stream cut at {i}/{n_e} (time)")
+            break
+        try:
+            env, rec = gen_env(rng, ekinds[i % len(ekinds)], variant=i // len(ekinds))
+        except Exception as e:   # building the environment (contractions, not serialisation) failed: not this property
+            ctx.count("env-generation-failed:" + type(e).__name__)
+            continue
+        case = dict(base, stream="env", i=i, recipe=rec)
+        ctx.count("env:" + rec["env"])
+        ctx.case({"stream": "env", "recipe": rec})
+        ctx.count("comparisons", generic_roundtrips(ctx, env, env_diffs, "env", case, tmp, known=known_triangular(env.geometry),
+                                                    levels=(0, 1, 2) if i % 2 == 0 else (2,)))
+        if i % 2 == 0:
+            d = env.to_dict(level=2)
+            dicts_for_model.append(d)
+            split_order_oracle(ctx, d, rng, case)
+
+    # ---- to_dict(meta=...) ----------------------------------------------------------------------------
+    emb_cases = []
+    for i in range(n_v):
+        if B.over(0.92):
+            ctx.notes.append(f"embed stream cut at {i}/{n_v} (time)")
+            break
+        ref, x, y, rec = gen_embed_case(rng)
+        case = dict(base, stream="embed", i=i, recipe=rec)
+        ctx.case({"stream": "embed", "recipe": rec}, nontrivial=ref.size > 0)
+        ctx.count("embed:" + ("diag" if rec["diag"] else "fused/lazy" if rec["ops"] != "[]" else "plain"))
+        meta = embed_checks(ctx, ref, x, y, case)
+        if meta is not None:
+            ctx.count("rejections", rejection_checks(ctx, rng, ref, x, meta, case))
+        if rec["ops"] == "[]" and not rec["diag"] and not rec["complex"] and len(emb_cases) < 80:
+            emb_cases.append((ref, x, False))
+            if len(ref.struct.t) >= 2:   # a block outside meta
+                small = yastn.Tensor(ref.config, s=ref.struct.s, n=ref.struct.n)
+                for t, D in list(zip(ref.struct.t, ref.struct.D))[1:]:
+                    small.set_block(ts=t, Ds=D, val="ones")
+                emb_cases.append((small, ref, True))
+
+    # ---- correspondence with the Lean model --------------------------------------------------------------
+    if ctx.drv is None:
+        ctx.notes.append("model driver not available: correspondence skipped")
+        return
+    split_correspondence(ctx, dicts_for_model, "real")
+    synth = [synth_dict(rng, malformed=(i % 5 == 0)) for i in range(n_s)]
+    split_correspondence(ctx, synth, "synthetic")
+    embed_correspondence(ctx, emb_cases)
+    todict_correspondence(ctx, tensors_for_model[:30 if quick else 150])
+
+
+def search(ctx, broken, budget_s):
+    """the eager oracles of run() already evaluated the property on the real code for every generated object"""
+    ctx.notes.append("failing-input search = the eager round-trip oracles over the generated objects (already run)")
+
+
+def replay(ctx, obj):
+    import random
+    case = (obj.get("finding") or {}).get("case") or {}
+    seed = case.get("seed", ctx.seed)
+    tier = case.get("tier", ctx.tier)
+    ctx.rng = random.Random(f"{ctx.pid}-{seed}")
+    ctx.quick = tier == "quick"
+    ctx.notes.append(f"replay: re-running the generator with seed={seed} tier={tier}; the stored case is stream={case.get('stream')} i={case.get('i')}")
+    run(ctx)
